@@ -22,7 +22,7 @@ from .simfs import SimFS, SimUnsupported
 CACHE_DIR = "/SIMFS/cache"
 CACHE_NAME = "simcache"
 
-RES_FAULTS = ("NOTFOUND", "ERR_BEFORE", "ERR_MID", "ERR_AFTER")
+RES_FAULTS = ("NOTFOUND", "ERR_BEFORE", "ERR_MID", "ERR_AFTER", "RET_FALSE_BEFORE", "RET_FALSE_MID")
 NET_FAULTS = ("HTTP_404", "HTTP_5XX", "CONN_ERR", "TIMEOUT")
 FS_FAULTS = ("EIO", "ENOSPC", "SHORT_WRITE", "EMFILE", "SRC_MISSING", "RENAME_EIO")
 PP_FAULTS = ("PP_ERR_BEFORE", "PP_ERR_MID", "PP_ERR_AFTER")
@@ -355,16 +355,25 @@ class World:
             raise NotFound("sim resource has no object %s" % uri)
         if kind == "ERR_BEFORE":
             raise InjectedError("injected: error before the first byte of %s" % uri)
+        if kind == "RET_FALSE_BEFORE":
+            # the documented protocol: "Return True on Success" - this resource reports failure by returning False
+            return False
         chunk = max(self.chunk, len(data) // 24 + 1)
         pieces = [data[i:i + chunk] for i in range(0, len(data), chunk)] or [b""]
+        failed_quietly = False
         with open(filepath, "wb") as f:
             for i, piece in enumerate(pieces):
-                if kind == "ERR_MID" and i == min(fault.get("k", 1), len(pieces) - 1):
+                if kind in ("ERR_MID", "RET_FALSE_MID") and i == min(fault.get("k", 1), len(pieces) - 1):
                     if len(pieces) == 1:
                         f.write(piece[:len(piece) // 2])
+                    if kind == "RET_FALSE_MID":
+                        failed_quietly = True
+                        break
                     raise InjectedError("injected: connection lost part-way through %s" % uri)
                 f.write(piece)
                 self.sched("net.chunk", uri, len(piece))
+        if failed_quietly:
+            return False
         if kind == "ERR_AFTER":
             raise InjectedError("injected: error after the last byte of %s" % uri)
         return True
